@@ -221,8 +221,77 @@ def run(ctx, rep):
     _netdeps.cycle_boundary(F, rep, "C07.cycle-boundary")
     from props import _depfilter
     _depfilter.run(F, rep, "C07")
+    fresh_cell_for_new_names_only(F, rep)
 
     # ---- (a) ---------------------------------------------------------------------
     if _visit is not None:
         _visit.run(F, rep, "C07.visit")
         _visit.deep(F, rep, "C07.visit-deep")
+
+
+
+def fresh_cell_for_new_names_only(F, rep):
+    """`store_fast n` binds the name n to a *new* cell in the current frame; a function that captured n earlier keeps the old cell and no longer
+    sees what the owner assigns.  So wherever the compiler emits store_fast with an operand that can spell a program variable, the name must be
+    one the statement introduces: the emission is reachable only where the AST node's own "this name already exists" flag is false (or the
+    statement runs in a frame of its own: class body members).  The operand kinds are read from the type of the formatted expression, the
+    flags from the node's bool fields."""
+    import opcodes
+    from collections import deque
+    n = 0
+    for f, name, span, c in opcodes.instruction_literals(F):
+        if name != "store_fast" or c.target is None:
+            continue
+        # the operand expressions formatted into this instruction: (type, local of the value)
+        dq, seen, ops, found = deque([c.target]), {c.target}, [], False
+        while dq and not found:
+            b = dq.popleft()
+            blk = f.blocks[b]
+            for s_ in blk["s"]:
+                if "rv" in s_ and "agg" in s_["rv"] and s_["rv"]["agg"].get("adt") == "compiler::ast::CompiledItem" and s_["rv"]["agg"].get("v") == "Instruction":
+                    found = True
+                    break
+            if found:
+                break
+            t = blk["t"]
+            if t["k"] == "call":
+                cal = t["func"].get("res") or t["func"].get("def") or ""
+                if "ToString" in cal or "to_string" in cal:
+                    ops.append(((t["func"].get("ga") or ["?"])[0], op_local(t["args"][0]) if t["args"] else None))
+            for s2 in f.succs(b):
+                if s2 not in seen:
+                    seen.add(s2)
+                    dq.append(s2)
+        for ty, l in ops:
+            if "TemporaryRegister" in ty or "CompiledFunctionId" in ty:
+                continue
+            label = "%s emits store_fast <%s>" % (mir.short(f.path), ty.split("::")[-1])
+            key = "C07.fresh-cell|%s|%s" % (mir.short(f.path), ty.split("::")[-1])
+            n += 1
+            if "NumberLoopRegister" in ty:
+                oc = rules.origin_calls(f, l) if l is not None else []
+                if oc and all(o.matches("compiler::ast::CompilationState::poll_loop_register") for o in oc):
+                    rep.ob("C07.fresh-cell", label + ": a generated register", "ok", "never a program name", span, fn=f.path, key=key + "|generated")
+                    continue
+                # may be NumberLoopRegister::Named: the emission must sit on the `name already exists == false` side of the node's flag
+                flags = []
+                for bi, si, dst, rv, s_ in f.assigns():
+                    pl = mir.op_place(rv.get("use")) if "use" in rv else None
+                    if pl and pl["l"] == 1 and f.locals[dst["l"]] == "bool" and any(e[0] == "field" and "collision" in str(e[2]) for e in pl.get("p", [])):
+                        flags.append(dst["l"])
+                if not flags:
+                    rep.ob("C07.fresh-cell", label + " only for a counter name that is new", "violated",
+                           "the counter may be a variable that already exists (the parser records it in name_is_collision) and the emission does not "
+                           "look at that flag: `i = 100; read = fn() -> int { return i }; from 0 to 3, i {}; i = 42; read()` gives 100", span, fn=f.path, key=key)
+                    continue
+                v, info = rules.guarded_by_bool(f, [c.bb], flags, want=False)
+                rep.ob("C07.fresh-cell", label + " only for a counter name that is new", v,
+                       "" if v == "ok" else "the store_fast of the counter is reachable while name_is_collision is true: the existing variable's cell is "
+                       "replaced and a function that captured it stops seeing the owner's assignments (%s)" % info, span, fn=f.path, key=key)
+            else:
+                # a plain name: allowed only where the statement runs in a frame of its own
+                own_frame = f.path.startswith("<compiler::ast::class::member_variable::MemberVariable as")
+                rep.ob("C07.fresh-cell", label + " in a frame of its own", "ok" if own_frame else "undecided",
+                       "class members are stored into the fresh class-body frame during construction" if own_frame else
+                       "a store_fast of a program name outside the forms this rule knows", span, fn=f.path, key=key)
+    rep.floor("C07.fresh-cell store_fast emissions with a nameable operand", n, 3)
